@@ -89,6 +89,15 @@ def main(tier, seed, replay=None):
                         ck.fail("standalone-socketserver-does-not-start-without-execnet", {"banner": srv.banner.decode("utf-8", "replace")[-400:], "python": BARE})
                     else:
                         configs.append(("socket-standalone", lambda: group.makegateway("socket=127.0.0.1:%d//id=sock//execmodel=%s" % (srv.port, em)), False))
+                        # ... and a further worker started THROUGH that source-bootstrapped socket worker (needs the connection above: own server)
+                        srv2 = X.StandaloneServer(REPO_SRC, os.path.join(scratch, "srvv%d%s" % (rd, em)), BARE.split() + ["-u"])
+                        servers.append(srv2)
+                        if srv2.ok():
+                            def via_sock(srv2=srv2):
+                                group.makegateway("socket=127.0.0.1:%d//id=sockm" % srv2.port)
+                                return group.makegateway("popen//via=sockm//id=viasock//execmodel=%s" % em)
+
+                            configs.append(("via-socket-standalone", via_sock, None))
                     if em == "thread":
                         # every other interpreter version installed here, bare: the shipped source may not need anything that
                         # only SOME versions of the standard library have
@@ -108,7 +117,7 @@ def main(tier, seed, replay=None):
                         ck.count("config_" + name)
                         st, gw = X.with_timeout(mk, 40)
                         if st != "ok":
-                            ck.fail("worker-does-not-come-up:" + name, {**ex, "error": "timeout after 40 s" if st == "timeout" else repr(gw)[:300]})
+                            ck.fail("worker-does-not-come-up:" + name, {**ex, "error": "timeout after 40 s" if st == "timeout" else repr(gw)[-300:]})
                             continue
 
                         def work(gw=gw):
